@@ -66,9 +66,19 @@ void vf_string_ctor_cstr(vf_string *s, const char *c)
 {
   size_t n = 0;
   while (c[n] != 0)
+#ifdef VF_MODEL_LOOP_CONTRACTS
+    __CPROVER_assigns(n)
+    __CPROVER_loop_invariant(n <= vf_gn && (vf_gc < n ==> c[vf_gc] != 0))
+    __CPROVER_decreases(vf_gn - n)
+#endif
     ++n;
   char *d = (char *)vf_malloc(n + 1);
   for (size_t i = 0; i < n; ++i)
+#ifdef VF_MODEL_LOOP_CONTRACTS
+    __CPROVER_assigns(i, __CPROVER_object_whole(d))
+    __CPROVER_loop_invariant(i <= n && (vf_gc < i ==> d[vf_gc] == c[vf_gc]))
+    __CPROVER_decreases(n - i)
+#endif
     d[i] = c[i];
   d[n] = 0;
   s->data = d;
